@@ -215,6 +215,8 @@ static std::vector<Config> configs()
         cs.push_back({ sn + " 3x2", sink, { { { 2, "a;" }, { 5, "bc;" } }, { { 3, "D;" }, { 5, "EF;" } }, { { 0, "x;" }, { 4, "yz1;" } } } });
         cs.push_back({ sn + " 2x1 long", sink, { { { 5, "abcde;" } }, { { 2, "VWXYZ;" } } } });
         cs.push_back({ sn + " 4x1", sink, { { { 2, "a;" } }, { { 5, "B2;" } }, { { 4, "c;" } }, { { 1, "dd;" } } } });
+        // particular bytes inside records: NUL (a C-string view would cut the record), high bytes, CR, tab, '%'
+        cs.push_back({ sn + " 2x2 special bytes", sink, { { { 2, std::string("a\0b;", 4) }, { 5, "%s\t\r;" } }, { { 3, std::string("\xff\0\x80;", 4) }, { 2, "G;" } } } });
         cs.push_back({ sn + " 2x3 non-nested streams", sink, { { { 2, "ab;" }, { 2, "c;" }, { 2, "de;" } }, { { 2, "VW;" }, { 2, "X;" }, { 2, "YZ;" } } }, 1 });
     }
     return cs;
